@@ -24,6 +24,19 @@ def run_cases(ctx, name, cases, exe, timeout=1200):
         f.write("\n".join(cases) + "\n")
     rc = ctx.run_harness(exe, cpath, ipath, timeout=timeout)
     impl = open(ipath).read().splitlines()
+    # a thread that did not reach its next park place within 3 s: run that case once more on its own (a real stall reproduces,
+    # a starved goroutine on a loaded machine does not)
+    hung = [i for i, o in enumerate(impl) if " hang" in o or "hang " in o or o.endswith("hang")][:20]
+    for i in hung:
+        rp = os.path.join(ctx.workdir, f"{name}.retry.cases")
+        ro = os.path.join(ctx.workdir, f"{name}.retry.out")
+        open(rp, "w").write(cases[i] + "\n")
+        if ctx.run_harness(exe, rp, ro, timeout=120) == 0:
+            lines = open(ro).read().splitlines()
+            if lines:
+                impl[i] = lines[0]
+    if hung:
+        ctx.notes.append(f"{len(hung)} hub schedule(s) re-run alone after a park time-out")
     mcases, iobs = [], []
     for line, out in zip(cases, impl):
         prog = line.split()[1]
